@@ -129,7 +129,7 @@ impl StreamId {
 //@tag C08 C06
 //@ret r
 //@sig
-        ensures (r == Side::Client) == (self.0 % 2 == 0),
+        ensures (r == Side::Client) == (self.0 % 2 == 0), // [C08.recv.kind.bits]
 //@entry
         proof { let v = self.0; assert((v & 0x1 == 0) == (v % 2 == 0)) by (bit_vector); }
 //@end
@@ -137,7 +137,7 @@ impl StreamId {
 //@tag C08 C06
 //@ret r
 //@sig
-        ensures (r == Dir::Bi) == ((self.0 / 2) % 2 == 0),
+        ensures (r == Dir::Bi) == ((self.0 / 2) % 2 == 0), // [C08.recv.kind.bits]
 //@entry
         proof { let v = self.0; assert((v & 0x2 == 0) == ((v / 2) % 2 == 0)) by (bit_vector); }
 //@end
@@ -312,7 +312,7 @@ pub trait CloseStream: ConnectionState {
 //@ret r
 //@sig
         ensures self.closing_flag() ==> r matches Some(StreamError::RemoteClosing), // [C08.client.check]
-            !self.closing_flag() ==> r is None,
+            !self.closing_flag() ==> r is None, // [C08.client.check.none]
 //@end
 }
 
